@@ -118,6 +118,8 @@ func (m *Machine) harnessAPI(fn *ssa.Function, a []Value) (Value, bool) {
 		return m.vfEmitted(fn, a[0]), true
 	case "vfTypeErrors":
 		return m.vfTypeErrors(a[0], a[1]), true
+	case "vfPruneImports":
+		return m.vfPruneImports(a[0]), true
 	case "vfRuntimeHas":
 		return m.runtimeHas(m.constName(a[0]), a[1]), true
 	case "vfAny":
@@ -307,6 +309,8 @@ func (m *Machine) concreteAPI(fn *ssa.Function, a []Value) (Value, bool) {
 		return m.vfEmitted(fn, a[0]), true
 	case "vfTypeErrors":
 		return m.vfTypeErrors(a[0], a[1]), true
+	case "vfPruneImports":
+		return m.vfPruneImports(a[0]), true
 	}
 	return nil, false
 }
